@@ -230,3 +230,31 @@ Proof.
   rewrite !go_blend_chan by lia. reflexivity.
 Qed.
 
+
+Theorem go_encodeColor2_eq b c : wf_gcolor c ->
+  go_encode_buffer_encodeColor2 b c = b ++ match encode2 (abs_color c) with Some l => l | None => [0; 15] end.
+Proof.
+  intros W. unfold go_encode_buffer_encodeColor2. rewrite go_Encode2_eq by exact W.
+  unfold encode2. destruct (abs_color c) as [d|i|i|t c0 c1]; try reflexivity. destruct (is2 d); reflexivity.
+Qed.
+
+Theorem go_encodeColor3Direct_eq b c : wf_gcolor c ->
+  go_encode_buffer_encodeColor3Direct b c = b ++ match encode3direct (abs_color c) with Some l => l | None => [0; 0; 0] end.
+Proof.
+  intros W. unfold go_encode_buffer_encodeColor3Direct. rewrite go_Encode3Direct_eq by exact W.
+  unfold encode3direct. destruct (abs_color c) as [d|i|i|t c0 c1]; try reflexivity. destruct (is3 d); reflexivity.
+Qed.
+
+Theorem go_encodeColor4_eq b c : wf_gcolor c ->
+  go_encode_buffer_encodeColor4 b c = b ++ match encode4 (abs_color c) with Some l => l | None => [0; 0; 0; 255] end.
+Proof.
+  intros W. unfold go_encode_buffer_encodeColor4. rewrite go_Encode4_eq by exact W.
+  unfold encode4. destruct (abs_color c) as [d|i|i|t c0 c1]; reflexivity.
+Qed.
+
+Theorem go_encodeColor3Indirect_eq b c : wf_gcolor c ->
+  go_encode_buffer_encodeColor3Indirect b c = b ++ match encode3indirect (abs_color c) with Some l => l | None => [0; 0; 0] end.
+Proof.
+  intros W. unfold go_encode_buffer_encodeColor3Indirect. rewrite go_Encode3Indirect_eq by exact W.
+  unfold encode3indirect. destruct (abs_color c) as [d|i|i|t c0 c1]; reflexivity.
+Qed.
